@@ -29,6 +29,7 @@ ALPHA = {
     "fmt": ["%s", "<%s>", "%r"],          # str % x is printf formatting: defined by Python for every right operand
     "bytes": [b"a", b"", b"xy"],          # kinds whose + is not commutative although they are not str
     "tuple": [(1,), (), (2, 3)],
+    "mixnum": [7, 2.5, -3],               # a float-kind vector that holds ints next to floats: each element is combined AS IT IS (7 // 2 is 3, not 3.0)
 }
 SCALARS = dict(ALPHA, timedelta=[timedelta(days=1), timedelta(days=-40)])
 OPS = {"add": operator.add, "sub": operator.sub, "mul": operator.mul, "truediv": operator.truediv,
